@@ -5,6 +5,7 @@ flag bytes and computes Valid; the harness builds each as real objects and asks 
 from engine import vectors
 
 DEFS = "Vecs == SetToSeq({[m |-> m, v |-> Valid(m)] : m \\in Focus})"
+CODE = {"OH": 264, "OR": 296, "HIP": 257, "VID": 266, "PN": 269, "OSI": 278, "RC": 268, "DC": 273, "OTHER": 281}
 CMD = {"CER": 257, "CEA": 257, "DWR": 280, "DWA": 280, "DPR": 282, "DPA": 282}
 
 
@@ -18,6 +19,11 @@ def build(n, m):
     avps = []
     for a in m["avps"]:
         c, d = a["c"], a["d"]
+        if a.get("vs", "none") != "none":
+            # a vendor-specific AVP of another vendor that happens to use the same code (generic on decode), 2 or 8 data octets
+            from bromelia.base import DiameterAVP
+            avps.append(DiameterAVP(code=CODE[c], vendor_id=9999, flags=a["fl"] | 0x80, data=bytes(range(1, 3 if a["vs"] == "short" else 9))))
+            continue
         if c == "OH":
             x = OriginHostAVP(ident[d][0])
         elif c == "OR":
@@ -69,7 +75,7 @@ def stage(rep):
             a = DiameterAssociation(n.d._connection, n.d._base)
             for v in vecs:
                 m = v["m"]
-                rep.case(("validate", role, m["kind"], m["hflags"], tuple((x["c"], x["fl"], x["d"]) for x in m["avps"])))
+                rep.case(("validate", role, m["kind"], m["hflags"], tuple((x["c"], x["fl"], x["d"], x.get("vs", "none")) for x in m["avps"])))
                 try:
                     got = verdict(n, a, m)
                 except BaseException as e:
@@ -78,7 +84,7 @@ def stage(rep):
                     nbad += 1
                     if nbad <= 5:
                         rep.violation(f"{role}: the validator says {got} for a {m['kind']} with header flags {m['hflags']:#04x} and AVPs "
-                                      f"{[(x['c'], x['fl'], x['d']) for x in m['avps']]}; specification (Validate.tla): {v['v']}",
+                                      f"{[(x['c'], x['fl'], x['d']) + ((x['vs'],) if x.get('vs', 'none') != 'none' else ()) for x in m['avps']]}; specification (Validate.tla): {v['v']}",
                                       {"kind": "validate", "role": role, "m": m, "expected": v["v"]})
         finally:
             n.s.kill_all()
